@@ -29,7 +29,8 @@ ASSUMPTIONS = [
 ]
 EXHAUSTIVE = {"quick": True, "thorough": True}
 FLOORS = {"quick": {"cases": 4000, "faulted-cases": 3500, "true-results": 100,
-                    "cases-with-look-alike-status-texts": 500, "random-cases": 500},
+                    "cases-with-look-alike-status-texts": 500, "random-cases": 500,
+                    "cases-on-a-client-that-listed-the-account-in-another-state-before": 2500},
           "thorough": {"cases": 23000, "faulted-cases": 22000, "true-results": 200,
                        "random-cases": 400000}}
 SHARD_TIMEOUT = {"quick": 600, "thorough": 3000}
@@ -250,6 +251,18 @@ def run_case(case, res: Result, rng=None, probe=False):
     if r != ("ret", True):
         res.inconclusive.append("auth failed: %r" % (r,))
         return
+    listed_before = False
+    if MARK[0] % 3 == 0 and srv.scripts and not probe:
+        # the client has looked at this account before, when another script (or none) was the
+        # active one: what it saw then decides nothing now
+        intended, faults = srv.active, srv.faults
+        srv.faults = {}
+        earlier = O if O in srv.scripts else next(iter(srv.scripts))
+        srv.active = earlier if earlier != intended else None
+        sess.call("listscripts")
+        srv.active, srv.faults = intended, faults
+        res.count("cases-on-a-client-that-listed-the-account-in-another-state-before")
+        listed_before = True
     before = dict(srv.scripts)
     before_active = srv.active
     newname = names[0] if st[3] else names[1]
@@ -269,7 +282,8 @@ def run_case(case, res: Result, rng=None, probe=False):
            "body": body_of(bi), "faults": [list(p) for p in plan_], "outcome": repr(out)[:200],
            "commands": cmds, "store_before": {k.decode(): v for k, v in before.items()},
            "active_before": before_active, "store_after": {k.decode(): v for k, v in after.items()},
-           "active_after": srv.active}
+           "active_after": srv.active,
+           "client_listed_the_account_in_another_state_before": listed_before}
     problems = []
     # outcome domain
     if not (out in (("ret", True), ("ret", False)) or (out[0] == "exc" and out[1] == "Error")):
@@ -353,6 +367,8 @@ def run_shard(tier, shard, res: Result):
 
 
 def replay(witness, res: Result):
+    if witness.get("client_listed_the_account_in_another_state_before"):
+        MARK[0] = 2  # build() counts on: the replayed case gets the same prelude
     st = witness["state"]
     state = (st["old"], st["new"] if not st["old==new"] else "same", st["other"], st["old==new"])
     from ..core import unjson_bytes
